@@ -65,13 +65,13 @@ var props = map[string]propCfg{
 		Assumptions: append([]string{"porcupine v1.3.0 decides linearizability of the recorded histories correctly"}, commonAssumptions...),
 	},
 	"C13": {
-		Require: []string{"tolerant_scripts_checked", "stop_scripts_checked", "stop_scripts_zero_tolerance", "stop_scripts_other_error", "stop_scripts_silence_beyond_tolerance", "stop_scripts_other_error_after_tolerated_fault", "scripts_with_data_and_fault_in_one_read", "scripts_with_a_slow_first_fault", "scripts_with_long_retry_pause"},
+		Require: []string{"tolerant_scripts_checked", "stop_scripts_checked", "stop_scripts_zero_tolerance", "stop_scripts_other_error", "stop_scripts_silence_beyond_tolerance", "stop_scripts_other_error_after_tolerated_fault", "scripts_with_data_and_fault_in_one_read", "scripts_with_a_slow_first_fault", "scripts_with_long_retry_pause", "stop_scripts_silent_source_reporting_fresh_timeouts"},
 		Race:    true, QuickBatches: 8, ThoroughBatches: 64, Parallel: 8, Level: "fault_enumeration", Floor: 200,
 		Rule:        "short streams (2-4 small frames, junk, optional truncated tail, some hostile; <= 400 bytes) read through a scripted io.Reader behind bufio by the real file handler with wait 1 ms / tolerance 120 ms. Tolerant scripts: a single end-of-file or i/o timeout at EVERY byte boundary; double faults (eof / 'i/o timeout' text / wrapped os.ErrDeadlineExceeded, any pair) at every 4th boundary; two separate interruptions (single or double) at random boundaries - all bytes must be processed exactly once in order (delivered sequence = the same build's sequential framing of all bytes), the channel closed and an error returned at the final silence. The configuration's unrelated settings (read timeout, sleep after failed open) are varied too. Stop scripts at every (quick: every 3rd) boundary: zero tolerance, another read error, another read error directly after a tolerated fault, or silence beyond the tolerance followed by data that must not be consumed - delivered = sequential framing of the bytes supplied before the stop (partial frame as non-RTCM), channel closed, error returned. The reader timestamps its faults: a tolerant script on which the handler gave up while two consecutive faults were >= half the tolerance apart is retried and otherwise inconclusive. Non-trivial: the fault falls strictly inside a frame. Distinct by hash of the script.",
 		Assumptions: commonAssumptions,
 	},
 	"C09": {
-		Require: []string{"messages_received_by_consumers", "hook_events", "sources_processed", "runs_with_empty_reads", "runs_with_silent_source"},
+		Require: []string{"messages_received_by_consumers", "hook_events", "sources_processed", "runs_with_empty_reads", "runs_with_silent_source", "runs_with_a_consumer_held_up_once", "runs_with_interruption_after_a_held_up_consumer"},
 		Race:    true, QuickBatches: 16, ThoroughBatches: 96, Parallel: 8, Level: "exploration", Floor: 40,
 		Rule:        "pipeline runs of the real file handler + fan-out (appcore.HandleMessagesUntilEOF) under the race detector: inputs are the captured batches and generated clean/hostile streams (200 B - 12 kB); the reader delivers chunks of 1..{1,2,7,64,500,5000} bytes with yield/sleep profiles; 1-4 consumer channels with capacities {0,1,4,64}, nil entries at any index and fast/yielding/slow(50us-2ms)/bursty consumers; GOMAXPROCS in {1,2,3,4,8,16}; check-time yield/sleep hooks before every channel operation of file_handler, handler, pushback and appcore (5 profiles). Oracle: every non-nil consumer's (type, raw bytes) sequence equals the same build's sequential framing of the same bytes; raw bytes do not change after delivery; the call returns 0; afterwards no goroutine with a frame in the four pipeline files remains (blocked in every sample for 200 ms = violation, still runnable = inconclusive); double close / send on closed channel / race report end the child. Non-trivial: >=2 real consumers, >=10 messages and a perturbation active. Distinct by hash of (input, reader, consumers, GOMAXPROCS, hook profile, seed).",
 		Assumptions: commonAssumptions,
@@ -126,13 +126,13 @@ var props = map[string]propCfg{
 		Assumptions: commonAssumptions,
 	},
 	"C02": {
-		Require: []string{"messages_delivered", "hook_events", "stalled_runs"},
+		Require: []string{"messages_delivered", "hook_events", "stalled_runs", "held_up_once_runs", "second_streams_on_one_handler"},
 		Race:    true, QuickBatches: 16, ThoroughBatches: 64, Parallel: 8, Level: "exploration", Floor: 200,
 		Rule:        "inputs: empty, lone 0xD3, 0xD3 runs, junk ending in 0xD3, every truncation point of a frame (alone and after a complete frame), hostile and clean generated streams; each run under several schedules: input channel capacity in {0,1,2,64,len}, output capacity in {0,1,8}, producer/consumer timing profiles (full speed, frequent yields, rare sleeps, bursts), GOMAXPROCS in {1,2,4,16}, and check-time yield/sleep hooks before every channel operation of the handler. Oracle: concatenation of delivered raw bytes equals the input, no empty message, output closed (range terminates), HandleMessages returned; a second close or send-after-close is observed as a crash of the child; race detector on. Non-trivial: the input has segments of at least two kinds or ends inside a frame. Distinct by hash of (input, capacities, GOMAXPROCS, profiles).",
 		Assumptions: commonAssumptions,
 	},
 	"C03": {
-		Require:      []string{"payload_lengths_swept", "truncation_positions_swept", "messages_delivered_as_expected", "long_sessions", "long_junk_runs", "stalled_runs"},
+		Require:      []string{"payload_lengths_swept", "truncation_positions_swept", "messages_delivered_as_expected", "long_sessions", "long_junk_runs", "stalled_runs", "held_up_once_runs"},
 		QuickBatches: 8, ThoroughBatches: 64, Parallel: 16, Level: "exploration", Floor: 200,
 		Rule:        "streams built from valid frames (any type, payload 1..1023; every payload length swept at least once; 0xD3 forced into payloads and found in CRC bytes), 0xD3-free junk runs (NMEA, UBX-like, HTTP, random; adjacent runs merged) and an optional truncated final frame (every truncation position of short frames swept). The expected (type, bytes) sequence is the generator's own segment list - no reference parser. Non-trivial: >=2 frames and (>=1 junk run or a truncated tail). Distinct by hash of the stream bytes.",
 		Assumptions: commonAssumptions,
